@@ -9,6 +9,7 @@ def main():
     entry = "--entry" in sys.argv
     scale = "--scale" in sys.argv
     coop = "--coop" in sys.argv
+    glue = "--glue" in sys.argv
     props = {json.loads(l)['id']: json.loads(l) for l in open('/verif/properties.jsonl')}
     prev = {}
     for d in sorted(glob.glob('/verif/seeded/*/meta.json')):
@@ -29,6 +30,8 @@ def main():
             GENHINT = (" THIS TIME, make a change whose effect depends on SCALE, POSITION or ACCUMULATED STATE rather than on the kind of input: something that only shows beyond a size or count threshold (an index, offset, length, id or counter narrowed to 8/16 bits or compared with `<` instead of `<=` at a far boundary; behaviour that differs for the 2nd/17th/257th/65537th element, word, instruction, block, function or call), at a particular position (first vs. later element of a list, last instruction of the last block, an instruction at a particular offset of the buffer), after a particular earlier call or failure (state that is left behind by one operation and misread by a later one), or through TWO cooperating edits that each look fine alone. Small inputs and fresh objects must keep working.")
         if coop:
             GENHINT = (" THIS TIME, make a change that needs a MULTI-STEP SEQUENCE or a FAILURE PATH to show: (i) an operation that FAILS or is ABORTED part-way (an error return, a rejected input, a consumer that stops, a call made in the wrong state) and leaves something behind — a counter advanced, a limit still set, a selection changed, an entry half-inserted, a cache filled — so that a LATER, otherwise correct, operation on the same object misbehaves; or (ii) an object that is REUSED (a second parse with the same parser/consumer/loader/tracker, a builder continued from an existing module, a second disassembly of the same module, the same table looked up again) and is not in its initial state; or (iii) TWO COOPERATING EDITS at different sites (e.g. producer and consumer of a field, an encoder and its decoder, a method and the helper it calls) that each look like a harmless tidy-up and are each individually behaviour-preserving or nearly so, but together break the property for some inputs. A single call on a fresh object with a well-formed input must keep working.")
+        if glue:
+            GENHINT = (" THIS TIME, stay away from the functions named in the anchors below: put the slip into GLUE that the property's behaviour still depends on but that nobody looks at — a helper, constructor, `Default`/`new`, `From`/`Into`/`TryFrom` conversion, `Display`/`Debug`/`Error` impl whose text is user-visible output, a macro (`inst!`, `ext_inst!`, `if_ret_err!`, bitflags declarations), a `mod.rs` re-export or type alias, an `Iterator`/`IntoIterator`/`Extend` impl, an `Option`/`Result` combinator chain (`map_or`, `unwrap_or_default`, `ok()`, `and_then`), an `as` cast between integer widths, a slice/`Vec` operation (`split_at`, `drain`, `truncate`, `insert` vs `push`, `extend` vs `append`), a `match` fall-through arm (`_ =>`), a const used in two places — anywhere the main algorithm hands a value to something 'obviously correct'. The main algorithm's own functions must stay textually unchanged.")
         txt = f"""You are working in a scratch git worktree of the Rust project gfx-rs/rspirv at {wt} (a SPIR-V toolkit: binary parser/decoder, assembler, disassembler, data representation with a Builder, lift to a structured representation). Work ONLY inside {wt}. Do not read or touch /repo or /verif. IMPORTANT: do NOT use `git stash` (the stash is shared between several worktrees of this repository that other people are using right now); to test with and without your change use `git diff -- <files> > seeded_out/patch.diff`, `git apply -R seeded_out/patch.diff`, `git apply seeded_out/patch.diff`.
 
 Below is a semantic property of this code base that is supposed to hold. Your job is to play a maintainer who makes ONE small, realistic slip — the kind of change that passes review: an off-by-one, a wrong guard, a swapped pair of arguments, a lost case in a match, a 'simplification' that drops a check, a wrong constant, a refactor that changes order or a boundary — in the NON-TEST library source (hand-written or generated .rs files both count), such that the property is BROKEN for some inputs, while:
